@@ -221,6 +221,15 @@ func (e *Engine) callFunction(st *State, fn *ssa.Function, args []Value, binding
 		panic(unsupported("call to function without body or model: " + name))
 	}
 	if !e.W.mayInline(fn) {
+		if strings.HasPrefix(name, "fmt.Print") || strings.HasPrefix(name, "fmt.Fprint") || strings.HasPrefix(name, "log.") {
+			// diagnostic output (a debug line added to the code under contract): no effect on the modelled state
+			e.trust("diagnostic output function " + name + " has no effect on the modelled state")
+			if fn.Signature.Results().Len() == 0 {
+				return nil, st
+			}
+			r := e.symbolic(resultType(fn.Signature), "ret_"+fn.Name())
+			return &r, st
+		}
 		panic(unsupported("call to dependency function without model/contract/allow-list entry: " + name))
 	}
 	return e.inline(st, fn, args, bindings, pos)
